@@ -201,15 +201,15 @@ theorem reach_struct {v : Variant} {s : State} (h : Reach v s) : StructInv v s :
 def InvR (s : State) : Prop := (s.locked = true → s.auth = false) ∧ (s.locked = false → s.auth = true)
 
 /-- in the variant without a temporary unlock no micro-step of ProcWalletSetPasswd touches flag or ghost. -/
-theorem repaired_spExec_flag (s : State) (c : Call) (hn : c.nxt = .verify ∨ c.nxt = .write) (hd : c.deferOn = false) :
-    (spExec repaired s c).1.locked = s.locked ∧ (spExec repaired s c).1.auth = s.auth := by
+theorem code_spExec_flag (s : State) (c : Call) (hn : c.nxt = .verify ∨ c.nxt = .write) (hd : c.deferOn = false) :
+    (spExec code s c).1.locked = s.locked ∧ (spExec code s c).1.auth = s.auth := by
   obtain ⟨nxt, temp, oldOk, writeOk, deferOn, res⟩ := c
   simp only at hn hd
   subst hd
-  rcases hn with rfl | rfl <;> cases oldOk <;> cases writeOk <;> simp [spExec, failWith, repaired]
+  rcases hn with rfl | rfl <;> cases oldOk <;> cases writeOk <;> simp [spExec, failWith, code]
 
-theorem invR_step (s s' : State) (l : Label) (o : Out) (hst : StructInv repaired s)
-    (hi : InvR s) (h : step repaired s l = some (s', o)) : InvR s' := by
+theorem invR_step (s s' : State) (l : Label) (o : Out) (hst : StructInv code s)
+    (hi : InvR s) (h : step code s l = some (s', o)) : InvR s' := by
   obtain ⟨lk, au, ar, mp, sp⟩ := s
   cases l with
   | spStep =>
@@ -218,7 +218,7 @@ theorem invR_step (s s' : State) (l : Label) (o : Out) (hst : StructInv repaired
     | some c =>
       simp only [step, Option.some.injEq] at h
       have hc := (hst c rfl).2.2 rfl rfl
-      have := repaired_spExec_flag { locked := lk, auth := au, armed := ar, memPw := mp, sp := some c } c hc.1 hc.2
+      have := code_spExec_flag { locked := lk, auth := au, armed := ar, memPw := mp, sp := some c } c hc.1 hc.2
       rw [h] at this
       simp only at this
       simp only [InvR] at hi ⊢
@@ -271,7 +271,7 @@ theorem invR_step (s s' : State) (l : Label) (o : Out) (hst : StructInv repaired
       simp only [step] at h
       split at h <;> simp only [Option.some.injEq, Prod.mk.injEq] at h <;> obtain ⟨rfl, rfl⟩ := h <;> exact hi
 
-theorem reach_repaired_inv {s : State} (h : Reach repaired s) : InvR s := by
+theorem reach_code_inv {s : State} (h : Reach code s) : InvR s := by
   induction h with
   | init m => simp [InvR]
   | step hr hst ih => exact invR_step _ _ _ _ (reach_struct hr) ih hst
